@@ -523,7 +523,7 @@ def _mcp_check(tier, seed):
                                  'detail': f'request {k} carries malformed transactions but was answered with a result'})
         log(f'[mcp] {len(script) - 1} malformed-JSON requests with the error at every byte alignment of a multi-byte line')
         # ---- known: a panicking calculation is never answered
-        ev, resp = play(root, 'ovf', [('send', 'overflow'), ('send', 'calc_all')], cls, patience=6)
+        ev, resp = play(root, 'ovf', [('send', 'overflow'), ('send', 'calc_all')], cls, patience=12)
         if 2 not in resp:
             findings.append({'prop': 'C20', 'kind': 'unanswered_panic', 'case': 0, 'input': OVERFLOW, 'data': {'class': 'overflow'},
                              'detail': 'a calculate_report request whose calculation panics (Decimal overflow) is never answered'})
@@ -531,7 +531,7 @@ def _mcp_check(tier, seed):
             findings.append({'prop': 'C20', 'kind': 'unanswered', 'case': 0, 'input': G1, 'data': {},
                              'detail': 'a well-formed request pipelined after a panicking one was never answered'})
         # ---- a request with a method outside the protocol must still be answered (JSON-RPC "method not found")
-        ev, resp = play(root, 'unkm', [('send', 'unknown_method'), ('send', 'tools_list')], cls, patience=6)
+        ev, resp = play(root, 'unkm', [('send', 'unknown_method'), ('send', 'tools_list')], cls, patience=12)
         if 2 not in resp:
             findings.append({'prop': 'C20', 'kind': 'unknown_method_unanswered', 'case': 0, 'input': json.dumps(cls['unknown_method']), 'data': {'class': 'unknown_method'},
                              'detail': 'a request whose method is not part of the protocol ("frobnicate/now") is never answered, not even with a JSON-RPC error'})
@@ -542,7 +542,7 @@ def _mcp_check(tier, seed):
             findings.append({'prop': 'C20', 'kind': 'unanswered', 'case': 0, 'input': 'tools/list after an unknown method', 'data': {},
                              'detail': 'a well-formed request sent after an unknown-method request was never answered'})
         # ---- known: an undecodable frame ends the session
-        ev, resp = play(root, 'garbage', [('send', 'calc_all'), ('drain',), ('raw', 'this is not json\n'), ('send', 'parse')], cls, patience=6)
+        ev, resp = play(root, 'garbage', [('send', 'calc_all'), ('drain',), ('raw', 'this is not json\n'), ('send', 'parse')], cls, patience=12)
         if 3 not in resp:
             findings.append({'prop': 'C20', 'kind': 'undecodable_frame_ends_session', 'case': 0, 'input': 'this is not json', 'data': {},
                              'detail': 'after a line that is not JSON the server stops answering (the request that follows gets no response)'})
